@@ -193,6 +193,19 @@ def run_shard(ctx):
         ctx.evaluations += 1
         if (x == y) is not False or (x != y) is not True:
             ctx.violation("eq-other-class", "nodes of different classes compare equal", {"classes": (type(x).__name__, type(y).__name__)})
+    # the same class name defined twice (old instances survive a redefinition): two different classes
+    src = f"@dataclass(frozen=True)\nclass {P}Redef2({P}Expr):\n    v: int = 0\n    kid: {P}Expr | None = None\n"
+    gen = []
+    for k in range(2):
+        exec(compile(src, f"<c02 redef {k}>", "exec", dont_inherit=True), U.module.__dict__)
+        gen.append(U.module.__dict__[f"{P}Redef2"])
+    x, y = gen[0](v=5), gen[1](v=5)
+    px, py = gen[0](v=1, kid=x), gen[1](v=1, kid=y)
+    ctx.count("same_named_class_probe")
+    for u, w in ((x, y), (y, x), (px, py)):
+        ctx.evaluations += 1
+        if (u == w) is not False or (u != w) is not True:
+            ctx.violation("eq-other-class", "instances of two different classes with the same name (class redefined) compare equal", {"class": f"{P}Redef2"})
     for nd, h in hashes:
         ctx.count("hash_rechecks")
         if hash(nd) != h:
